@@ -415,6 +415,14 @@ def rule_r4(ctx) -> List[R.Inst]:
                    if reset_before_frame else "reset_samples() only re-assigns self.samples: iterating a list yields fresh items, so resetting them never "
                    "reaches the note frames" if reset_idx and not resets_notes else
                    "the frame is taken before the reset" if reset_idx else "no reset at all")
+            # stores into frames that the attribution above does not follow (a frame reached through a local, a computed column)
+            loose = [n for n in walk_no_nested(rfn.node) if isinstance(n, ast.Assign) and isinstance(n.targets[0], ast.Subscript) and
+                     isinstance(n.targets[0].value, ast.Name) and n.targets[0].value.id != "self"]
+            if reset_before_frame and loose:
+                insts.append(R.undec(rid, key, file, frames[df].lineno,
+                                     f"reset_samples() writes frame columns through a local ({unparse(loose[0])[:60]}): which lists and "
+                                     f"columns that reaches is not followed"))
+                continue
             insts.append(R.viol(rid, key, file, frames[df].lineno,
                                 f"column '{c}' of the result is never cleared before the source's sounds are slotted in ({why}): a "
                                 f"sound the target had and the source lacks survives in the result",
